@@ -549,6 +549,8 @@ class Interp:
                 nb = SAgg(b.kind, b.name, nf)
             elif b is None:
                 nb = SAgg("struct", "?", {place[2]: v})
+            elif isinstance(b, SOpaque) and getattr(self, "opaque_sinks", False):
+                return          # kernel option: writes into memory obtained from an unmodelled callee are dropped (the value stays opaque)
             else:
                 raise Inconclusive(f"field write into {b}")
             self.write(st, depth, place[1], nb)
